@@ -427,9 +427,9 @@ func init() {
 		}
 		js = append(js, symJobs("c20", "ZZ_C20_Sym", []seqCfg{{"be_writing", 2, 0, 0, 0}, {"bw_w10_pending", 0, 0, 2, 10}}, mid, 1)...)
 		// loaders: single/bulk loads, explicit and automatic refreshes, every outcome incl. panics (concrete clock)
-		lsteps := 1
+		lsteps := 2
 		if tier == "thorough" {
-			lsteps = 2
+			lsteps = 3
 		}
 		for _, lc := range []struct {
 			name          string
@@ -490,9 +490,9 @@ func init() {
 		}
 		js = append(js, mk("c10.bulkstale.r_writing", rootPkg, "ZZ_C10_BulkStale", cfgParams(0, 2, 0, 0, 0, 0), func(b *Bounds) { b.Unwind = 12; b.MapOrders = 2 }))
 		js = append(js, mk("c10.bulkstale.r_creating", rootPkg, "ZZ_C10_BulkStale", cfgParams(0, 1, 0, 0, 0, 0), func(b *Bounds) { b.Unwind = 12; b.MapOrders = 2 }))
-		vp := 1
+		vp := 2
 		if tier == "thorough" {
-			vp = 2
+			vp = 3
 		}
 		vj := mk(sprintf("c10.volunteer_vs_load.pre%d", vp), rootPkg, "ZZ_C10_VolunteerVsLoad", nil,
 			func(b *Bounds) { b.Unwind = 60; b.Preempt = vp; b.Race = true; b.MapOrders = 2; b.MaxPaths = 8000000; b.MaxWallS = 3000 })
